@@ -13,34 +13,45 @@ Import Calc2.
 
 Theorem C01_calc2_start_spec : forall e en cx st tr r, start e en cx = (st, tr, r) ->
   (r = None -> wf2 e st /\ pending e st <> []) /\
-  (r <> None -> done_st e st /\ inert st /\ pending e st = []).
+  (r <> None -> done_st e st /\ inert e st /\ pending e st = []).
 Proof. exact start_spec2. Qed.
 Print Assumptions C01_calc2_start_spec.
 
 Theorem C01_calc2_stop_spec : forall e st0 cx st tr r, wf2 e st0 -> stop e st0 cx = (st, tr, r) ->
   (r = None -> wf2 e st /\ pending e st <> []) /\
-  (r <> None -> done_st e st /\ inert st /\ pending e st = []).
+  (r <> None -> done_st e st /\ inert e st /\ pending e st = []).
 Proof. exact stop_spec2. Qed.
 Print Assumptions C01_calc2_stop_spec.
 
 Theorem C01_calc2_leafev_spec : forall e st0 id o cx st tr r hit,
   wf2 e st0 -> leafev e st0 id o cx = ((st, tr, r), hit) ->
   (r = None -> wf2 e st /\ pending e st <> []) /\
-  (r <> None -> done_st e st /\ inert st /\ pending e st = []).
+  (r <> None -> done_st e st /\ inert e st /\ pending e st = []).
 Proof. exact leafev_spec2. Qed.
 Print Assumptions C01_calc2_leafev_spec.
 
-(* silent after completion, state level: a completed (OCompl, OLeaf true) or absent (OFin) operation state
-   does not react to a stop request or a leaf event *)
-Theorem C01_calc2_stop_inert : forall e st cx, inert st -> stop e st cx = (st, [], None).
+(* silent after completion, state level: a completed (OCompl, OLeaf true, [stage 5] the ONode of a completed
+   allocate) or absent (OFin) operation state does not react to a stop request or a leaf event.  [stage 5] a
+   completed allocate still records the stop request in its node state (no event, no completion, same
+   allocator): [sim] = equal up to that *)
+Theorem C01_calc2_stop_inert : forall e st cx, inert e st ->
+  exists st', stop e st cx = (st', [], None) /\ sim e st st'.
 Proof. exact stop_inert. Qed.
 Print Assumptions C01_calc2_stop_inert.
 
-Theorem C01_calc2_leafev_inert : forall e st id o cx, inert st -> leafev e st id o cx = ((st, [], None), false).
+Theorem C01_calc2_sim_done : forall e st st', sim e st st' -> done_st e st -> done_st e st'.
+Proof. exact sim_done. Qed.
+Print Assumptions C01_calc2_sim_done.
+
+Theorem C01_calc2_sim_dtor : forall e st st', sim e st st' -> dtor e st' = dtor e st.
+Proof. exact sim_dtor. Qed.
+Print Assumptions C01_calc2_sim_dtor.
+
+Theorem C01_calc2_leafev_inert : forall e st id o cx, inert e st -> leafev e st id o cx = ((st, [], None), false).
 Proof. exact leafev_inert. Qed.
 Print Assumptions C01_calc2_leafev_inert.
 
-Theorem C01_calc2_done_inert : forall e st, done_st e st -> inert st.
+Theorem C01_calc2_done_inert : forall e st, done_st e st -> inert e st.
 Proof. exact done_inert. Qed.
 Print Assumptions C01_calc2_done_inert.
 
@@ -78,14 +89,16 @@ Print Assumptions C01_calc2_root_after_start.
 
 Theorem C01_calc2_no_lost_run : forall e pre script,
   let rs := run e pre script in
-  (r_roots rs = 0%nat -> wf2 e (r_st rs) /\ pending e (r_st rs) <> []) /\
-  (r_roots rs = 1%nat -> done_st e (r_st rs) /\ inert (r_st rs) /\ pending e (r_st rs) = []).
+  (r_roots rs = 0%nat ->
+     if cthrows e then r_st rs = OFin else wf2 e (r_st rs) /\ pending e (r_st rs) <> []) /\
+  (r_roots rs = 1%nat -> done_st e (r_st rs) /\ inert e (r_st rs) /\ pending e (r_st rs) = []).
 Proof. exact C01_2_no_lost_run. Qed.
 Print Assumptions C01_calc2_no_lost_run.
 
 Theorem C01_calc2_no_lost : forall e pre script,
   let rs := exec e pre script in
-  (r_roots rs = 0%nat -> wf2 e (r_st rs) /\ pending e (r_st rs) <> []) /\
+  (r_roots rs = 0%nat ->
+     if cthrows e then r_st rs = OFin else wf2 e (r_st rs) /\ pending e (r_st rs) <> []) /\
   (r_roots rs = 1%nat -> r_st rs = OFin /\ pending e (r_st rs) = []).
 Proof. exact C01_2_no_lost. Qed.
 Print Assumptions C01_calc2_no_lost.
@@ -94,7 +107,7 @@ Theorem C01_calc2_silent_after : forall e pre script script2,
   r_roots (run e pre script) = 1%nat ->
   let rs := run e pre script in
   let rs' := run e pre (script ++ script2) in
-  r_roots rs' = 1%nat /\ r_st rs' = r_st rs /\
+  r_roots rs' = 1%nat /\ sim e (r_st rs) (r_st rs') /\
   exists n, (n <= length script2)%nat /\ r_tr rs' = r_tr rs ++ repeat XSkip n /\
     r_tr (exec e pre (script ++ script2)) =
       r_tr rs ++ repeat XSkip n ++ XRootDtor :: map XT (dtor e (r_st rs)) /\
@@ -109,6 +122,15 @@ Theorem C01_calc2_dead_after_end : forall e pre script script3,
   exists n, (n <= length script3)%nat /\ r_tr rs' = r_tr (exec e pre script) ++ repeat XSkip n.
 Proof. exact C01_2_dead_after_end. Qed.
 Print Assumptions C01_calc2_dead_after_end.
+
+(* [stage 5] connecting the whole expression threw: nothing exists, nothing runs *)
+Theorem C01_calc2_connect_throw : forall e pre script,
+  cthrows e = true ->
+  exec e pre script = run e pre script /\ r_roots (run e pre script) = 0%nat /\ r_st (run e pre script) = OFin /\
+  exists n, (n <= length script)%nat /\
+    r_tr (run e pre script) = map XT (fst (conn e 0)) ++ XConnectThrow :: repeat XSkip n.
+Proof. exact C01_2_connect_throw. Qed.
+Print Assumptions C01_calc2_connect_throw.
 
 (* ---- a concrete run:
    let_value(leaf 1, when_all(stop_when(leafN 2, leaf 3),
@@ -153,3 +175,24 @@ Example C01_calc2_ex_throw :
   r_roots rs1 = 0%nat /\ pending e (r_st rs1) = [PLeaf 3] /\
   r_roots rs2 = 1%nat /\ count_roots (r_tr rs2) = 1%nat /\ r_st rs2 = OFin.
 Proof. vm_compute. repeat split. Qed.
+
+(* [stage 5] "r_st unchanged after the root completed" is false for a completed allocate (hence [sim] above):
+   the first EvStop is recorded in the node state *)
+Example C01_calc2_ex_alloc_stop :
+  let e := Un UAllocate (Leaf 1) in
+  let rs := run e false [EvLeaf 1%nat (OVal 5) 0%nat] in
+  let rs' := run e false [EvLeaf 1%nat (OVal 5) 0%nat; EvStop 0%nat] in
+  r_roots rs = 1%nat /\ r_st rs <> r_st rs' /\ r_tr rs' = r_tr rs /\
+  r_tr (exec e false [EvLeaf 1%nat (OVal 5) 0%nat; EvStop 0%nat]) =
+    [XT (TAlloc 0); XT (TLeafStart 1 false true 0 0 0 0); XRoot (OVal 5) 0 0; XRootDtor; XT (TLeafDtor 1); XT (TFree 0)].
+Proof. vm_compute. repeat split. discriminate. Qed.
+
+(* [stage 5] a lazily connected successor whose connect throws: let_value destroys the finished source, the
+   successor is never started, the node completes with the error; a root connect that throws runs nothing *)
+Example C01_calc2_ex_connect_throw :
+  let e := Bin BLetV (Leaf 1) (Un UAllocate (Bin BWhenAll (Un UAllocate (Leaf 2)) (LeafC 3))) in
+  r_tr (exec e false [EvLeaf 1%nat (OVal 5) 0%nat]) =
+    [XT (TLeafStart 1 false true 0 0 0 0); XT (TLeafDtor 1); XT (TAlloc 0); XT (TFree 0); XRoot (OErr 78) 0 0; XRootDtor] /\
+  r_tr (exec (Bin BWhenAll (LeafC 3) (Un UAllocate (Leaf 2))) false [EvLeaf 2%nat (OVal 1) 0%nat]) =
+    [XT (TAlloc 0); XT (TFree 0); XConnectThrow; XSkip].
+Proof. vm_compute. split; reflexivity. Qed.
